@@ -231,7 +231,15 @@ func c06Body(cfg c06Cfg, sc c06Scn, res *string) func(x *sched.Exec) {
 			case strings.HasPrefix(op, "M:"):
 				id := op[2:]
 				r := c06Record(id)
-				_ = bp.OnEmit(context.Background(), &r)
+				ectx := context.Background()
+				if strings.HasSuffix(id, "2") {
+					// every second record of an emitter is emitted with a context that has already ended (a
+					// request-scoped context after the request): the record counts like any other
+					c, cancel := context.WithCancel(ectx)
+					cancel()
+					ectx = c
+				}
+				_ = bp.OnEmit(ectx, &r)
 				emittedAt[id] = tick()
 				// the caller keeps using its record
 				r.SetBody(log.StringValue("mutated"))
